@@ -25,6 +25,6 @@ if [ "${TESTS:-0}" = 1 ]; then
   (cd "$SCR/repo" && go test -count=1 ./... 2>&1 | grep -v conda | tail -8)
 fi
 for P in $PROP; do
-WSCHECK_REPO="$SCR/repo" WSCHECK_VERIF="$SCR/verif" /verif/bin/wscheck check -property $P -tier $TIER 2>&1 | grep -v conda | sed "s#$SCR/repo/##g; s#$SCR#SCR#g"
+WSCHECK_REPO="$SCR/repo" WSCHECK_VERIF="$SCR/verif" ${WSCHECK_BIN:-/verif/bin/wscheck} check -property $P -tier $TIER 2>&1 | grep -v conda | sed "s#$SCR/repo/##g; s#$SCR#SCR#g"
 echo "exit=${PIPESTATUS[0]}"
 done
